@@ -326,6 +326,24 @@ class Ctx:
                 self.obligation("%s:%s" % (failed_file, failed_lemma or "?"), False, errtxt)
             if rc2 == 0:
                 self.parse_assumptions(pa)
+                if self.tier == "thorough" and not os.environ.get("VERIF_NO_COQCHK"):
+                    # independent re-check of the compiled property file and everything it depends on
+                    rc3, chk = sh("timeout 3000 coqchk -silent -o -Q . RV RV.Props.%s" % pid, cwd=COQ, timeout=3030)
+                    summ = chk[chk.find("CONTEXT SUMMARY"):] if "CONTEXT SUMMARY" in chk else chk[-1500:]
+                    m = re.search(r"\* Axioms:(.*?)\n\s*\n\* Constants/Inductives relying on type-in-type:(.*?)\n\s*\n"
+                                  r"\* Constants/Inductives relying on unsafe \(co\)fixpoints:(.*?)\n\s*\n"
+                                  r"\* Inductives whose positivity is assumed:(.*?)\n", summ, re.S)
+                    fields = [" ".join(x.split()) for x in m.groups()] if m else None
+                    self.extra["coqchk"] = dict(exit=rc3, axioms=fields[0] if fields else None,
+                                                type_in_type=fields[1] if fields else None,
+                                                unsafe_fixpoints=fields[2] if fields else None,
+                                                assumed_positivity=fields[3] if fields else None)
+                    clean = rc3 == 0 and fields is not None and all(f == "<none>" for f in fields[1:])
+                    self.obligation("coqchk:Props/%s.vo" % pid, clean, "" if clean else summ[-1500:])
+                    if fields and fields[0] != "<none>":
+                        self.trusted.append("coqchk -o: axioms in the loaded libraries: " + fields[0])
+                    else:
+                        self.trusted.append("coqchk -o on Props/%s.vo: no axioms, no type-in-type, no unsafe fixpoints, no assumed positivity" % pid)
         self.build_ok = all(o["ok"] for o in self.obligations)
         self.checker_cmd = ("python translate/py2coq.py /repo coq/Gen && cd coq && coq_makefile -f _CoqProject -o Makefile "
                             "&& make %s && coqc -Q . RV %s  (Print Assumptions after each theorem)" % (
